@@ -41,7 +41,7 @@ warnings.simplefilter("ignore")
 MARK = ("ABCDEFGHIJKLMNOPQRSTUVWXYZabcdefghijklmnopqrstuvwxyz0123456789"
         "ÀÁÂÃÄÅÆÇÈÉÊËÌÍÎÏ"
         "ÐÑÒÓÔÕÖØÙÚÛÜÝÞß")
-MODEL_KINDS = {"leaf", "fill", "pile", "columns", "padding", "filler", "frame", "boxadapter", "attrmap", "overlay", "linebox"}
+MODEL_KINDS = {"leaf", "fleaf", "fill", "pile", "columns", "padding", "filler", "frame", "boxadapter", "attrmap", "overlay", "linebox"}
 REAL_LEAVES = {"edit", "icon", "button", "checkbox"}
 
 
@@ -881,7 +881,10 @@ def enc_tree(node, out):
     if k == "leaf":
         _, lid, box, h, sel, api, cur, rej, minw, wrap = node
         out += [0, lid, box, h, wrap, sel, api, 0 if cur is None else 1, 0 if cur is None else cur[0], 0 if cur is None else cur[1],
-                len(rej)] + list(rej) + [minw]
+                len(rej)] + list(rej) + [minw, 0]
+    elif k == "fleaf":
+        _, lid, fw, fh, sel = node
+        out += [0, lid, 0, fh, 0, sel, 0, 0, 0, 0, 0, 1, fw]
     elif k == "fill":
         out.append(10)
     elif k == "pile":
@@ -892,7 +895,7 @@ def enc_tree(node, out):
     elif k == "columns":
         out += [2, node[1], node[2], node[3], len(node[4])]
         for o, b, c in node[4]:
-            out += [{"given": 1, "weight": 2}[o[0]], o[1], b]
+            out += [{"pack": 0, "given": 1, "weight": 2}[o[0]], o[1] if len(o) > 1 else 0, b]
             enc_tree(c, out)
     elif k == "padding":
         out += [3] + _pad(*node[2:7])
@@ -923,6 +926,18 @@ def enc_tree(node, out):
         enc_tree(node[1], out)
     else:
         raise core.MachineryError("cannot encode node kind %r" % (k,))
+
+
+def needs_extended(case):
+    """Fixed-size parts (size (), fixed leaves, 'pack' columns, Overlay width 'pack'): only in Model/GeometryX.v."""
+    if not case["size"]:
+        return True
+    for n in walk(case["tree"]):
+        if n[0] == "fleaf" or (n[0] == "overlay" and n[4][0] == "pack"):
+            return True
+        if n[0] == "columns" and any(o[0] == "pack" for o, _, _ in n[4]):
+            return True
+    return False
 
 
 def has_real(tree):
@@ -1231,7 +1246,7 @@ def simpler_nodes(node, mode):
 class C09(core.Check):
     pid = "C09"
     gen_modules = ["geo_padfill"]
-    model_targets = ["theories/Model/Geometry.vo"]
+    model_targets = ["theories/Model/Geometry.vo", "theories/Model/GeometryX.vo"]
     prop_file = "theories/Properties/C09.v"
     extract_v = "Extract/C09X.v"
     allowed_axioms = set()
@@ -1297,7 +1312,9 @@ class C09(core.Check):
         if has_real(case["tree"]):
             return None                      # real Edit / Button / GridFlow / ListBox: judged by the oracle only
         size = case["size"]
-        out = [size[0], 1 if len(size) == 2 else 0, size[1] if len(size) == 2 else 0, len(case["moves"])]
+        # model 0: the proved model of Geometry.v (cross-checked against the extended one); 1: extended model only
+        out = [1 if needs_extended(case) else 0,
+               size[0] if size else -1, 1 if len(size) == 2 else 0, size[1] if len(size) == 2 else 0, len(case["moves"])]
         for c, r in case["moves"]:
             out += [c, r]
         enc_tree(case["tree"], out)
@@ -1320,6 +1337,8 @@ class C09(core.Check):
         try:
             if ints[:1] == [-1]:
                 return {"malformed": ints[:20]}
+            if ints[:1] == [-2]:
+                return {"models-disagree": "Model/Geometry.v and Model/GeometryX.v give different answers"}
             res = {"fits": bool(nx()), "hascur": bool(nx()), "hasmove": bool(nx()), "cols": nx(), "rows": nx()}
             res["rcursor"] = oxy()
             g = cres()
@@ -1523,7 +1542,10 @@ class C09(core.Check):
             items = [[["pack"], 0, ft], [["weight", 1], 0, g.leaf(False)]]
             rng.shuffle(items)
             got = self.sized(rng, ["columns", rng.randrange(2), rng.choice([0, 1]), 1, items], False)
-        return got[0] if got else None
+        if not got:
+            return None
+        self.add_moves(rng, got[0], got[1], 3)
+        return got[0]
 
     def overlay_case(self, rng):
         g = Gen(rng)
